@@ -36,14 +36,16 @@ def plan(tier, seed):
         nd = int(pick(rng, [1, 1, 2, 2, 3]))
         lim = [9, 6, 4][nd - 1] if quick else [14, 8, 5][nd - 1]
         grid = [int(rng.integers(1, lim + 1)) for _ in range(nd)]
-        batch = pick(rng, [[], [], [2], [1, 3]])
+        batch = pick(rng, [[], [], [2], [1, 3], [2, 3]])
         pts = pick(rng, [[5], [7], [2, 3], [1]])
         kernel, param, width = lops._kernel_params(rng, nd)
         P.add("kernel", grid=grid, batch=batch, pts=pts, nd=nd,
               ccls=pick(rng, ["inside", "outside", "ties", "integer", "dup"]),
               kernel=kernel, param=param, width=width,
               dt=pick(rng, ["complex128", "complex128", "float64", "complex64"]),
-              via=pick(rng, ["func", "func", "linop"]), cseed=int(rng.integers(1 << 30)))
+              via=pick(rng, ["func", "func", "linop"]), cseed=int(rng.integers(1 << 30)),
+              layout=pick(rng, ["C", "C", "C", "F", "strided"]),
+              arrparams=bool(rng.random() < 0.3))
     return P.cases
 
 
@@ -56,10 +58,27 @@ def run_case(case):
     coord = lops.make_coord(case["cseed"], pts, grid, case["ccls"])
     x = crandn(rng, batch + grid, dt)
     y = crandn(rng, batch + pts, dt)
+    layout = case.get("layout", "C")
+    if layout == "F":
+        x, y = np.asfortranarray(x), np.asfortranarray(y)
+    elif layout == "strided":
+        def strided(a):
+            big = np.zeros(tuple(2 * n for n in a.shape), a.dtype)
+            sl = tuple(slice(None, None, 2) for _ in a.shape)
+            big[sl] = a
+            return big[sl]
+        x, y = strided(x), strided(y)
+    if case.get("arrparams"):
+        # width / param handed over as NumPy arrays (and re-used for both calls)
+        width = np.array([width] * nd if np.isscalar(width) else width, dtype=np.float64)
+        param = np.array([param] * nd if np.isscalar(param) else param, dtype=np.float64)
+    w0 = np.array(width, dtype=np.float64, copy=True)
+    p0 = np.array(param, dtype=np.float64, copy=True)
     sig = "|".join(map(str, [
         nd, "".join("1" if g == 1 else "n" for g in grid), len(batch), len(pts), case["ccls"],
         kernel, "pa" if not np.isscalar(param) else param if kernel == "spline" else "b",
-        "wa" if not np.isscalar(width) else width, dt.name, case["via"]]))
+        "wa" if not np.isscalar(width) else width, dt.name, case["via"],
+        case.get("layout", "C"), "ap" if case.get("arrparams") else "sp"]))
     wit = {k: case[k] for k in ("grid", "batch", "pts", "ccls", "kernel", "param", "width",
                                 "dt", "via", "cseed")}
     x0, y0, c0 = x.copy(), y.copy(), coord.copy()
@@ -81,10 +100,17 @@ def run_case(case):
                         "on)" % (type(inn).__name__, str(inn)[:200]), wit, mech=mech)
     if not (np.array_equal(x, x0) and np.array_equal(y, y0) and np.array_equal(coord, c0)):
         return violated(sig, "an argument was modified", wit, mech="mutated")
-    ref_i, ab_i = O.interpolate(x0.astype(np.complex128 if dt.kind == "c" else np.float64),
-                                coord, kernel, width, param)
-    ref_g, ab_g = O.gridding(y0.astype(np.complex128 if dt.kind == "c" else np.float64),
-                             coord, batch + grid, kernel, width, param)
+    if not (np.array_equal(np.asarray(width, float), w0)
+            and np.array_equal(np.asarray(param, float), p0)):
+        return violated(sig, "the width / param argument was modified by the call (width %s -> "
+                        "%s)" % (w0, np.asarray(width)), wit, mech="mutated-params")
+    width_l = w0.tolist() if w0.ndim else float(w0)
+    param_l = p0.tolist() if p0.ndim else float(p0)
+    ref_i, ab_i = O.interpolate(np.ascontiguousarray(x0).astype(
+        np.complex128 if dt.kind == "c" else np.float64), coord, kernel, width_l, param_l)
+    ref_g, ab_g = O.gridding(np.ascontiguousarray(y0).astype(
+        np.complex128 if dt.kind == "c" else np.float64), coord, batch + grid, kernel, width_l,
+        param_l)
     rel = 1e-12 if kernel == "spline" else 2e-6
     if dt == np.complex64:
         rel = max(rel, 2e-5)
@@ -119,6 +145,6 @@ def run_case(case):
         return violated(sig, "gridding is not the transpose of interpolate: <Ix,y> = %s, "
                         "<x,Gy> = %s" % (lhs, rhs), wit, mech="transpose", obs=obs)
     taps_per_pt = float(np.max(ab_i > 0)) if ab_i.size else 0
-    nontrivial = any(len(O.taps(c, grid, kernel, width, param)) >= 2
+    nontrivial = any(len(O.taps(c, grid, kernel, width_l, param_l)) >= 2
                      for c in coord.reshape(-1, nd)[:5])
     return held(sig, obs, checks, nontrivial)
